@@ -3,11 +3,17 @@
    quoted strings) and the VALUE-LITERAL grammar (Model/ValueParse.v = parser.rs parse_value: null, strings, integers,
    booleans, regular expressions, ranges, lists, maps): every spelling of a value - any layout and comments at every
    position the grammar allows, either quote character, either keyword case, signs and leading zeros - parses to that
-   value. NOT modelled: the rest of the nom grammar (queries, clauses, blocks, rules) - that a synonym is accepted identically in EVERY context is
+   value; and the QUERY grammar (Model/QueryParse.v = parser.rs `access`: some, this, variable / bare / quoted heads, .n, [n],
+   .key, ."key", ['key'], .%var, .*, [*], [name], the i32 wrap of an index, the [*] inserted after a variable head): every
+   spelling of a query parses to that query; an explicit leading `this` means the query itself in the documented semantics.
+   NOT modelled: filters `[ clauses ]` and keys filters inside a query, and the rest of the nom grammar (clauses, blocks,
+   rules) - that a synonym is accepted identically in EVERY context is
    checked by correspondence (pretty-printing generated ASTs under all spellings/layouts and comparing the parser's
    ASTs and the verdicts; tools/gv/props/c14.py). *)
-From GV.Model Require Import Lex ValueParse.
+From GV.Model Require Import Ast Spec.
+From GV.Model Require Import Lex ValueParse QueryParse.
 From GV.Proofs Require Import LexProps ValueParseProps ValueSpellProps ValueSpellExample.
+From GV.Proofs Require Import QueryParseProps QuerySpellProps QuerySpellExample ThisProps.
 
 Theorem C14_keyword_tables_are_the_documented_ones :
   set_eqb kw_in_keyword ["in"; "IN"] = true /\ set_eqb kw_keys ["keys"; "KEYS"] = true /\
@@ -103,3 +109,68 @@ Theorem C14_spelling_instance :
                         ("a ""b", VList [VStr "it's"; VNull; VBool true; VRegex "^a.*$"; VRangeChar "a" "z" 2; VMap []])].
 Proof. exact (conj ex_cst_wf ex_cst_parses). Qed.
 Print Assumptions C14_spelling_instance.
+
+(* ---- the query grammar (Model/QueryParse.v = parser.rs `access`) ---- *)
+
+(* every concrete spelling of a query - .n or [n], leading zeros, a key bare / quoted either way / in brackets, some / SOME,
+   this / THIS, any layout in front of every part and inside the brackets - parses to that query, to the end of the spelling *)
+Theorem C14_every_spelling_of_a_query_parses_to_it : forall c rest,
+  qwf c -> query_end rest -> access_top (qrender c +++ rest) = POk (qdenote c) rest.
+Proof. exact query_spelling_parses. Qed.
+Print Assumptions C14_every_spelling_of_a_query_parses_to_it.
+
+Theorem C14_spellings_of_one_query_agree : forall c1 c2 rest,
+  qwf c1 -> qwf c2 -> query_end rest -> qdenote c1 = qdenote c2 ->
+  access_top (qrender c1 +++ rest) = access_top (qrender c2 +++ rest).
+Proof. exact query_spellings_agree. Qed.
+Print Assumptions C14_spellings_of_one_query_agree.
+
+(* `.n` and `[n]` *)
+Theorem C14_dotted_and_bracketed_index_agree : forall w w' w2 neg d X,
+  layout w -> layout w' -> layout w2 -> wf_digits d -> name_end X ->
+  part (render_part (CDotIndex w neg d) +++ X) = part (render_part (CBrIndex w' neg d w2) +++ X).
+Proof. exact index_spellings_agree. Qed.
+Print Assumptions C14_dotted_and_bracketed_index_agree.
+
+(* `.key`, `."key"` / `.'key'` and `["key"]` / `['key']` *)
+Theorem C14_key_spellings_agree : forall w w' w'' w2 dq dq' k X,
+  layout w -> layout w' -> layout w'' -> layout w2 -> wf_name k -> ends_with_backslash k = false -> name_end X ->
+  part (render_part (CDotKey w KBare k) +++ X) = part (render_part (CDotKey w' (KQuoted dq) k) +++ X) /\
+  part (render_part (CDotKey w KBare k) +++ X) = part (render_part (CBrKey w'' dq' k w2) +++ X).
+Proof. exact key_spellings_agree. Qed.
+Print Assumptions C14_key_spellings_agree.
+
+(* the query parser always answers, its fuel is irrelevant once it suffices, and it consumes input *)
+Theorem C14_query_parser_answers : forall s, access_top s <> POof.
+Proof. exact access_answers. Qed.
+Print Assumptions C14_query_parser_answers.
+
+Theorem C14_query_parser_fuel_irrelevant : forall s n, (access_fuel s <= n)%nat -> access n s = access_top s.
+Proof. exact access_fuel_irrelevant. Qed.
+Print Assumptions C14_query_parser_fuel_irrelevant.
+
+Theorem C14_query_parser_consumes : forall n s q r, access n s = POk q r -> (String.length r < String.length s)%nat.
+Proof. exact access_consumes. Qed.
+Print Assumptions C14_query_parser_consumes.
+
+(* the premises are met: a spelling with every construct in it, and a second spelling of the same query *)
+Theorem C14_query_spelling_instance :
+  access_top (qrender ex_query +++ " == 1") = POk (qdenote ex_query) " == 1" /\
+  qdenote ex_query = AccessQuery [QKey "%buckets"; QAllIndices None; QKey "Properties"; QKey "a b"; QIndex 7; QIndex (-1); QKey "%k"; QAllValues None;
+                                  QKey "it's"; QAllIndices (Some "idx")] false /\
+  qdenote ex_plain = qdenote ex_query /\ qrender ex_plain <> qrender ex_query.
+Proof. exact ex_query_parses. Qed.
+Print Assumptions C14_query_spelling_instance.
+
+(* an explicit leading `this` means the query itself (documented semantics; the implementation model refines it) *)
+Theorem C14_leading_this_selects_the_same : forall lit_ok r env q,
+  head_not_variable q -> query_s lit_ok r env q <> SOut -> query_s lit_ok r env (QThis :: q) = query_s lit_ok r env q.
+Proof. exact leading_this_selects_the_same. Qed.
+Print Assumptions C14_leading_this_selects_the_same.
+
+Theorem C14_leading_this_same_clause : forall re lit_ok r env q all c w m neg,
+  head_not_variable q -> query_s lit_ok r env q <> SOut ->
+  access_s re lit_ok r env (GuardAccessClause (AccessQuery (QThis :: q) all) c w m neg) =
+  access_s re lit_ok r env (GuardAccessClause (AccessQuery q all) c w m neg).
+Proof. exact leading_this_same_clause. Qed.
+Print Assumptions C14_leading_this_same_clause.
